@@ -32,6 +32,10 @@ class Counter:
         return out
 
 
+def shifted_like(x, shift=0.0):
+    return float(-0.5 * np.sum((x - 0.5 - shift) ** 2) / 0.49)
+
+
 class ShuffledPool:
     """Pool-like object whose workers finish in reverse order but which returns results in input order."""
     def map(self, f, xs):
@@ -91,6 +95,62 @@ def main():
             elif d != ref[1]:
                 print(json.dumps({"reproduced": True, "detail": f"kernel={kernel} blobs={blobs} support={support}: strategy {st} and {ref[0]} give different histories/weights/evidence for the same seed",
                                   "input": {"strategy": st, "kernel": kernel, "blobs": blobs, "support": support}}))
+                return
+    # more than 1024 particles, counts that are not a multiple of any chunk size: vectorised == serial, calls exact
+    for n_part, kernel in ((1025, "tpcn"), (1027, "rwm")):
+        ref = None
+        for st in ("serial", "vectorize"):
+            tried += 1
+            c = Counter(False, False)
+            kw = dict(n_dim=2, n_particles=n_part, random_state=5, sample=kernel, clustering=False)
+            s = Sampler(pt, c.vec, vectorize=True, **kw) if st == "vectorize" else Sampler(pt, c.one, **kw)
+            try:
+                s.run(n_total=2 * n_part, progress=False)
+            except Exception as e:
+                print(json.dumps({"reproduced": True, "detail": f"{st}, n_particles={n_part}: {type(e).__name__}: {e}", "input": {"strategy": st, "n_particles": n_part}}))
+                return
+            if int(s.state.get_current("calls")) != c.n:
+                print(json.dumps({"reproduced": True, "detail": f"{st}, n_particles={n_part}: reported calls={int(s.state.get_current('calls'))} but the likelihood was evaluated at {c.n} points",
+                                  "input": {"strategy": st, "n_particles": n_part, "kernel": kernel}}))
+                return
+            X, L = s.state.get_history("x", flat=True), s.state.get_history("logl", flat=True)
+            if not np.array_equal(-0.5 * np.sum((X - 0.5) ** 2, axis=1) / 0.49, L) and not np.allclose(-0.5 * np.sum((X - 0.5) ** 2, axis=1) / 0.49, L, rtol=1e-13, atol=0):
+                print(json.dumps({"reproduced": True, "detail": f"{st}, n_particles={n_part}: {int(np.sum(~np.isclose(-0.5 * np.sum((X - 0.5) ** 2, axis=1) / 0.49, L, rtol=1e-13)))} stored "
+                                  f"log-likelihoods are not the likelihood at the stored points", "input": {"strategy": st, "n_particles": n_part, "kernel": kernel}}))
+                return
+            d = digest(s)
+            if ref is None:
+                ref = d
+            elif d != ref:
+                print(json.dumps({"reproduced": True, "detail": f"n_particles={n_part}, kernel={kernel}: vectorised and serial evaluation give different histories/weights/evidence for the same seed",
+                                  "input": {"strategy": st, "n_particles": n_part, "kernel": kernel}}))
+                return
+    # several samplers in one process sharing the likelihood function and the pool size but not its extra arguments: each pooled run
+    # equals its own serial run
+    for mode in ("args", "kwargs"):
+        digs = {}
+        for st, shift in itertools.product(("serial", "pool=2"), (0.0, 1.5)):
+            tried += 1
+            kw = dict(n_dim=2, n_particles=32, random_state=5)
+            kw.update(dict(log_likelihood_args=(shift,)) if mode == "args" else dict(log_likelihood_kwargs=dict(shift=shift)))
+            if st != "serial":
+                kw["pool"] = 2
+            try:
+                s = Sampler(pt, shifted_like, **kw)
+                s.run(n_total=96, progress=False)
+            except Exception as e:
+                print(json.dumps({"reproduced": True, "detail": f"{st} with log_likelihood_{mode}: {type(e).__name__}: {e}", "input": {"strategy": st, "mode": mode}}))
+                return
+            X, L = s.state.get_history("x", flat=True), s.state.get_history("logl", flat=True)
+            if not np.array_equal(np.array([shifted_like(x, shift) for x in X]), L):
+                print(json.dumps({"reproduced": True, "detail": f"{st}, second sampler of the process with log_likelihood_{mode} shift={shift}: stored log-likelihoods are not "
+                                  f"f(x, {shift}) at the stored points (the workers evaluated another sampler's likelihood)", "input": {"strategy": st, "mode": mode, "shift": shift}}))
+                return
+            digs[(st, shift)] = digest(s)
+        for shift in (0.0, 1.5):
+            if digs[("serial", shift)] != digs[("pool=2", shift)]:
+                print(json.dumps({"reproduced": True, "detail": f"log_likelihood_{mode} shift={shift}: the pool=2 run differs from the serial run of the same seed",
+                                  "input": {"mode": mode, "shift": shift}}))
                 return
     # calls stay exact across a checkpoint / resume (the resumed sampler's own counter counts the evaluations made after the restore)
     import tempfile, os, shutil
